@@ -59,8 +59,74 @@ class Falsy(Obj):
         return 'falsy_Obj'
 
 
+class Zero(Obj):
+    """A user-defined quantity that is zero: false AND equal to 0 (so not a null value)."""
+
+    def __bool__(self):
+        return False
+
+    def __eq__(self, other):
+        return other == 0
+
+    def __hash__(self):
+        return hash(0)
+
+    def __str__(self):
+        return 'zero_Qty 0'
+
+
+class Unset(Obj):
+    """False through __bool__ (no length), not equal to 0: a null value with a non-empty text."""
+
+    def __bool__(self):
+        return False
+
+    def __str__(self):
+        return 'unset_Obj'
+
+
+class Count(int):
+    """int subclass"""
+
+
+class Ratio(float):
+    """float subclass"""
+
+
+class Text(str):
+    """str subclass"""
+
+
 def build(recipe):
     kind = recipe[0]
+    if kind == 'decimal':
+        from decimal import Decimal
+        return Decimal(recipe[1])
+    if kind == 'fraction':
+        from fractions import Fraction
+        return Fraction(int(recipe[1][0]), int(recipe[1][1]))
+    if kind == 'complex':
+        return complex(float(recipe[1][0]), float(recipe[1][1]))
+    if kind == 'bool':
+        return bool(recipe[1])
+    if kind == 'intsub':
+        return Count(recipe[1])
+    if kind == 'floatsub':
+        return Ratio(recipe[1])
+    if kind == 'strsub':
+        return Text(recipe[1])
+    if kind == 'set':
+        return set(recipe[1])
+    if kind == 'frozenset':
+        return frozenset(recipe[1])
+    if kind == 'range':
+        return range(int(recipe[1]))
+    if kind == 'bytearray':
+        return bytearray(recipe[1].encode('ascii'))
+    if kind == 'zero':
+        return Zero()
+    if kind == 'unset':
+        return Unset()
     if kind == 'str':
         return recipe[1]
     if kind == 'bytes':
@@ -303,8 +369,9 @@ def source(case):
     if syntax == 'ent':
         assert opts and all(v is None for n, v in opts) and case['form'] == 'name'
         return '[&dtml.%s-%s;]' % ('.'.join(n for n, v in opts), name)
+    var_prefix = syntax == 'epfs' and bool(case.get('var_prefix'))
     if case['form'] == 'expr':
-        assert syntax in ('dtml', 'ssi')
+        assert syntax in ('dtml', 'ssi') or var_prefix
         namepart = 'expr="%s"' % name if not case.get('bare_expr') else '"%s"' % name
     else:
         namepart = ('name=%s' % name) if case.get('name_attr') else name
@@ -314,7 +381,8 @@ def source(case):
     if syntax == 'ssi':
         return '[<!--#var %s-->]' % body
     if syntax == 'epfs':
-        return '[%%(%s)%s]' % (body, case.get('cfmt', 's'))
+        # "%(name args)F" or "%(var name args)F" (the only EPFS spelling that takes expr= / name=)
+        return '[%%(%s%s)%s]' % ('var ' if var_prefix else '', body, case.get('cfmt', 's'))
     raise ValueError(syntax)
 
 
@@ -361,6 +429,8 @@ def predict(case, order, observed_stage=None, sequence=None, position_only=None)
     # 1. missing
     if case['value'][0] == 'undefined':
         if 'missing' in opts and case['form'] == 'name':
+            if opts['missing'] is None:
+                return skip('valueless missing (replacement text not stated)')
             p.text = opts['missing']
             p.replaced = 'missing'
             return p
@@ -375,6 +445,8 @@ def predict(case, order, observed_stage=None, sequence=None, position_only=None)
     if 'null' in opts:
         try:
             if is_null(val):
+                if opts['null'] is None:
+                    return skip('valueless null (replacement text not stated)')
                 p.text = opts['null']
                 p.replaced = 'null'
                 return p
@@ -385,6 +457,8 @@ def predict(case, order, observed_stage=None, sequence=None, position_only=None)
     if 'fmt' in opts:
         fmt = opts['fmt']
         try:
+            if fmt is None:
+                return skip('valueless fmt')
             if fmt == '':
                 return skip('empty fmt')
             if hasattr(val, fmt):
@@ -427,12 +501,19 @@ def predict(case, order, observed_stage=None, sequence=None, position_only=None)
     p.pre_size = s
     # 6. size / etc
     if 'size' in opts:
+        if opts['size'] is None:
+            return skip('valueless size')
         try:
             size = int(opts['size'])
         except (TypeError, ValueError):
             return skip('non-integer size')
         if size < 0:
             return skip('negative size')
-        s = m_truncate(s, size, opts.get('etc', '...'))
+        etc = opts.get('etc', '...')
+        if etc is None:
+            if len(s) > size:
+                return skip('valueless etc')
+            etc = ''
+        s = m_truncate(s, size, etc)
     p.text = s
     return p
